@@ -51,7 +51,19 @@ func (p *panicCatcher) take() []string {
 	return m
 }
 
+// tcpCanary: "the service still works" = one of three ordinary exchanges is served (an attempt
+// made while the harness itself is starved of CPU can time out without any fault of the server).
 func tcpCanary(c *vk.Ctx, r *rand.Rand, rig *TCPRig, hub *TargetHub, k KeySpec) bool {
+	for attempt := 0; attempt < 3; attempt++ {
+		if tcpCanary1(c, r, rig, hub, k) {
+			return true
+		}
+		c.Count("tcp_canary_retries", 1)
+	}
+	return false
+}
+
+func tcpCanary1(c *vk.Ctx, r *rand.Rand, rig *TCPRig, hub *TargetHub, k KeySpec) bool {
 	caseN := nextID(c.Batch)
 	ip := caseIP4(caseN & 0xffffff)
 	hub.On(ip.String(), func(tc *TargetConn) {
